@@ -226,6 +226,19 @@ func runC05(c *mon.Ctx) {
 							}
 						}
 					}
+					if t.EventIDFormat >= 2 {
+						// the same event as a caller's store may hand it back: the ID alongside, and the JSON still carrying an
+						// "event_id" member that was never the ID (redaction keeps that key, it must not become the ID)
+						sj := ref.MustParse(orig)
+						sj.Set("event_id", ref.S("$stale-member"))
+						if sp, err := impl.NewEventFromTrustedJSONWithEventID(idBefore, gen.Plain().Bytes(sj), false); err == nil {
+							sp.Redact()
+							c.Count("pdu_redactions_with_supplied_id")
+							if sp.EventID() != idBefore {
+								c.Failf("redact:event-id-changed:supplied-id", "an event loaded with its ID supplied reports %s after Redact(), before %s (v%s)", sp.EventID(), idBefore, ver)
+							}
+						}
+					}
 					p.Redact()
 					if r2, _, _ := ref.Parse(p.JSON()); r2 == nil || !ref.Equal(r2, rv) {
 						c.Failf("redact:not-idempotent:"+typ, "second Redact() changed the event (v%s)", ver)
